@@ -126,6 +126,8 @@ def replay_one(v, present=True):
         try:
             blocks = MWS[kind](True).transform(Library([e])).blocks
         except Exception as ex:  # noqa
+            from pysym.harness import guard_repo_exception
+            guard_repo_exception(ex)
             return {"input": v, "observed": f"{kind}: raised {type(ex).__name__}: {ex}", "expected": "no exception"}
         if not present:
             if len(blocks) != 1 or [f.key for f in blocks[0].fields] != ["title"]:
@@ -145,6 +147,8 @@ def replay_pair(v, ka, kb):
     try:
         a, b = drv_pair(v, ka, kb)
     except Exception as ex:  # noqa
+        from pysym.harness import guard_repo_exception
+        guard_repo_exception(ex)
         return {"input": v, "observed": f"{ka} then {kb}: raised {type(ex).__name__}: {ex}", "expected": "no exception"}
     if month_of_native(v) is None:
         return None
@@ -303,6 +307,8 @@ def task_triple(L, ka, kb, kc):
         try:
             a, b = drv_triple(val, ka, kb, kc)
         except Exception as ex:  # noqa
+            from pysym.harness import guard_repo_exception
+            guard_repo_exception(ex)
             return {"input": val, "observed": f"{ka},{kb},{kc}: raised {type(ex).__name__}: {ex}", "expected": "no exception"}
         if month_of_native(val) is None:
             return None
@@ -351,6 +357,8 @@ def task_two(L1, L2, kind):
         try:
             j, g, x, y = [vals(r) for r in drv_two(a, b, kind)]
         except Exception as ex:  # noqa
+            from pysym.harness import guard_repo_exception
+            guard_repo_exception(ex)
             return {"input": [a, b, kind], "observed": f"raised {type(ex).__name__}: {ex}", "expected": "no exception"}
         if j is not None and x is not None and y is not None and g is not None and j == x + y and g == y and [type(t) for t in j] == [type(t) for t in x + y]:
             return None
